@@ -77,10 +77,10 @@ func NewRun(property, tier string) *Run {
 		floors: map[string]int{}, ruleDoc: map[string]string{}, analysed: map[string]int{}}
 }
 
-func (r *Run) SetReplay(p string)       { r.replay = p }
-func (r *Run) Explain(s string)         { r.explanation = s }
-func (r *Run) Assume(s ...string)       { r.assumptions = append(r.assumptions, s...) }
-func (r *Run) Note(f string, a ...any)  { r.notes = append(r.notes, fmt.Sprintf(f, a...)) }
+func (r *Run) SetReplay(p string)          { r.replay = p }
+func (r *Run) Explain(s string)            { r.explanation = s }
+func (r *Run) Assume(s ...string)          { r.assumptions = append(r.assumptions, s...) }
+func (r *Run) Note(f string, a ...any)     { r.notes = append(r.notes, fmt.Sprintf(f, a...)) }
 func (r *Run) Analysed(what string, n int) { r.analysed[what] += n }
 
 // Rule declares a rule, its documentation and its floor (minimum number of instances
